@@ -120,6 +120,7 @@ def run(ctx):
     ctx.exhaustive = True
     failing, err = vlib.run_cases(ctx, 'grid', HEADER, checks, chunk=120)
     ctx.obligation('correspondence:case files evaluated', 'correspondence', not err, err)
+    ctx.obligation('correspondence:model == implementation on all cases', 'correspondence', not failing and not err, str(failing[:10]))
     if err:
         ctx.violation('correspondence', 'DomainDefinition', 'case files compile', 'harness', dict(error=err[-3000:]),
                       theorem='cases_grid')
